@@ -314,6 +314,7 @@ def oracle(ctx, heavy=False):
                 ctx.count(("tuple", name, meth, direction))
     time_unit_oracle(ctx)
     scale_and_dtype_oracle(ctx)
+    round3_oracle(ctx)
 
 
 def time_unit_oracle(ctx):
@@ -378,6 +379,63 @@ def scale_and_dtype_oracle(ctx):
         if ytc.dtype != torch.complex128 or not torch.equal(ytc[0], y0c) or not float((ytc - refc).abs().max()) <= tolc:
             ctx.fail("oracle", "ivp:%s:complex-state" % meth, {"state": "complex128", "grid": "float64"},
                      [str(ytc.dtype), float((ytc - refc).abs().max()) if ytc.dtype == torch.complex128 else None], "complex128 result within %g" % tolc)
+
+
+def round3_oracle(ctx):
+    """adaptive methods: (a) grids that force REJECTED trial steps after accepted ones (a very short first interval, then long
+    ones: the step grows until the controller overshoots) - the retried step must start from the same state and derivative
+    (seeded C07/7: the FSAL derivative was a view of the stage buffer and a rejected trial overwrote it);
+    (b) the result of a float64 solve does not depend on solves run before it, e.g. in float32 (seeded C07/8: tableau cached on
+    the class in the dtype of the last call);  (c) atol = 0 is a purely relative tolerance, not "use the default" (C07/9)"""
+    from xitorch.integrate import solve_ivp
+    import math
+    w = 3.0
+    cases = [
+        ("separable", lambda t, y: -2 * t * y, torch.tensor([-3.0, -2.99, 0.0, 1.0, 3.0], dtype=DT), torch.tensor([1.0, -2.0], dtype=DT),
+         lambda ts, y0: y0 * torch.exp(ts[0] ** 2 - ts ** 2)[:, None]),
+        ("oscillator", lambda t, y: torch.stack([y[1], -w * w * y[0]]), torch.tensor([0.0, 0.01, 1.0, 4.0, 10.0], dtype=DT),
+         torch.tensor([1.0, 0.0], dtype=DT), lambda ts, y0: torch.stack([torch.cos(w * ts), -w * torch.sin(w * ts)], dim=-1)),
+        ("logistic", lambda t, y: y * (1 - y), torch.tensor([0.0, 1e-3, 2.0, 6.0, 12.0], dtype=DT), torch.tensor([0.05, 0.5], dtype=DT),
+         lambda ts, y0: 1.0 / (1.0 + (1.0 / y0 - 1.0) * torch.exp(-ts)[:, None])),
+    ]
+    for meth, atol, rtol in (("rk45", 1e-8, 1e-5), ("rk23", 1e-8, 1e-5), ("rk45", 1e-10, 1e-8)):
+        for name, fcn, ts, y0, exact in cases:
+            yt = solve_ivp(guarded(fcn, 400000), ts, y0, method=meth, atol=atol, rtol=rtol)
+            ex = exact(ts, y0)
+            ratio = float((yt - ex).abs().max() / (atol + rtol * ex.abs().max()))
+            ctx.count(("rejected-steps", meth, name, atol))
+            if not ratio <= 60.0:
+                ctx.fail("oracle", "ivp:%s:accuracy-after-rejected-steps" % meth,
+                         {"family": name, "ts": ts.tolist(), "atol": atol, "rtol": rtol}, ratio, "error / (atol + rtol max|y|) <= 60")
+    # (b) history independence
+    Arot = torch.tensor([[0.0, 1.0], [-1.0, 0.0]], dtype=DT)
+    ts = torch.linspace(0, 5.0, 6, dtype=DT)
+    y0 = torch.tensor([1.0, 0.0], dtype=DT)
+    for meth in ("rk45", "rk23", "rk4", "rk38", "euler"):
+        kw = dict(atol=1e-12, rtol=1e-10) if meth in ("rk45", "rk23") else {}
+        first = solve_ivp(guarded(lambda t, y: Arot @ y, 400000), ts, y0, method=meth, **kw)
+        solve_ivp(lambda t, y: -y, torch.linspace(0, 1, 3, dtype=torch.float32), torch.ones(2, dtype=torch.float32), method=meth)
+        solve_ivp(lambda t, y: 1j * y, torch.linspace(0, 1, 3, dtype=DT), torch.ones(2, dtype=torch.complex128), method=meth)
+        again = solve_ivp(guarded(lambda t, y: Arot @ y, 400000), ts, y0, method=meth, **kw)
+        ctx.count(("history", meth))
+        if again.dtype != first.dtype or not torch.equal(first, again):
+            ctx.fail("oracle", "ivp:%s:history-dependent" % meth, {"sequence": ["float64 solve", "float32 solve", "complex128 solve", "the same float64 solve"]},
+                     float((first - again).abs().max()) if again.dtype == first.dtype else str(again.dtype), "bit-identical results")
+    # (c) purely relative / purely absolute tolerances
+    lam = -1.0
+    tsd = torch.linspace(0, 30.0, 4, dtype=DT)
+    for meth in ("rk45", "rk23"):
+        yt = solve_ivp(guarded(lambda t, y: lam * y, 400000), tsd, torch.tensor([1.0], dtype=DT), method=meth, atol=0.0, rtol=1e-6)
+        rel = float(((yt[:, 0] - torch.exp(lam * tsd)).abs() / torch.exp(lam * tsd)).max())
+        ctx.count(("zero-atol", meth))
+        if not rel <= 1e-3:
+            ctx.fail("oracle", "ivp:%s:zero-atol-relative-accuracy" % meth, {"ode": "y' = -y on [0, 30]", "atol": 0.0, "rtol": 1e-6}, rel,
+                     "relative error <= 1e-3 at every requested time")
+        yt = solve_ivp(guarded(lambda t, y: Arot @ y, 400000), ts, 1e3 * y0, method=meth, atol=1e-6, rtol=0.0)
+        err = float((yt - 1e3 * torch.stack([torch.cos(ts), -torch.sin(ts)], dim=-1)).abs().max())
+        ctx.count(("zero-rtol", meth))
+        if not err <= 1e-3:
+            ctx.fail("oracle", "ivp:%s:zero-rtol-absolute-accuracy" % meth, {"ode": "rotation, |y| = 1e3", "atol": 1e-6, "rtol": 0.0}, err, "<= 1e-3")
 
 
 def search(ctx):
